@@ -36,3 +36,30 @@ Proof.
   unfold piecewise, plaw, spec_hertz_para.
   destruct (Rlt_dec delta cp); destruct (Rlt_dec 0 (cp - delta)); try lra; reflexivity.
 Qed.
+
+(* the cone and the three-sided pyramid are power laws with p = 2, so the
+   identifiability theorem applies to them as well *)
+Lemma Rpower_2 r : 0 < r -> Rpower r 2 = r ^ 2.
+Proof.
+  intros H. replace 2 with (1 + 1) by lra. rewrite Rpower_plus, Rpower_1 by exact H. ring.
+Qed.
+
+Theorem C01_cone_is_powerlaw : forall E alpha nu cp bl delta, 1 - nu ^ 2 <> 0 ->
+  m_hertz_cone E alpha nu cp bl delta
+  = plaw 2 (2 * tan (alpha * PI / 180) / PI * (E / (1 - nu ^ 2))) cp bl delta.
+Proof.
+  intros E alpha nu cp bl delta Hn. rewrite formula_hertz_cone by exact Hn.
+  unfold piecewise, plaw, spec_hertz_cone.
+  destruct (Rlt_dec delta cp); destruct (Rlt_dec 0 (cp - delta)); try lra; try reflexivity.
+  rewrite Rpower_2 by assumption. reflexivity.
+Qed.
+
+Theorem C01_pyr3s_is_powerlaw : forall E alpha nu cp bl delta, 1 - nu ^ 2 <> 0 ->
+  m_hertz_pyr3s E alpha nu cp bl delta
+  = plaw 2 (8887 / 10000 * tan (alpha * PI / 180) * (E / (1 - nu ^ 2))) cp bl delta.
+Proof.
+  intros E alpha nu cp bl delta Hn. rewrite formula_hertz_pyr3s by exact Hn.
+  unfold piecewise, plaw, spec_hertz_pyr3s.
+  destruct (Rlt_dec delta cp); destruct (Rlt_dec 0 (cp - delta)); try lra; try reflexivity.
+  rewrite Rpower_2 by assumption. reflexivity.
+Qed.
